@@ -763,6 +763,7 @@ func main() {
 	b, _ := json.MarshalIndent(F, "", " ")
 	writeIfChanged(filepath.Join(*out, "facts.json"), string(b)+"\n")
 	writeIfChanged(filepath.Join(*out, "Facts.lean"), lean(F))
+	translateAll(*repo, *out)
 }
 
 func must(err error) {
